@@ -1,5 +1,6 @@
 """Observation of the implementation and of the extracted model, layer by layer, in comparable form."""
 import math
+import os
 from fractions import Fraction as Fr
 
 import framework as fw
@@ -186,6 +187,66 @@ def token_diff(m, i):
     if len(m["bds"]) != len(i["bds"]):
         d.append("number of descriptors")
     else:
+        for n, (a, b) in enumerate(zip(m["bds"], i["bds"])):
+            dd = descr_diff(a, b)
+            if dd:
+                d.append(f"descriptor {n}: " + ",".join(dd))
+    return d
+
+
+# --------------------------------------------------------------------------------------------
+# stochastic-object layer (Model/Stoch.v)
+def stoch_line(text):
+    return "\t".join(["stoch", fw.hx(text), ",".join(fw.hx(v) for v in valid_bracket_atoms(text))])
+
+
+def parse_model_stoch(line):
+    if line.startswith("ERR "):
+        return ("ERR", line[4:])
+    if not line.startswith("OK "):
+        return ("BAD", line)
+    d = dict(p.split("=", 1) for p in line[3:].split(" "))
+    dist = None if d["dist"] == "none" else (d["dist"].split(":")[0], fw.unhx(d["dist"].split(":")[1]))
+    return {"left": fw.unhx(d["left"]), "right": fw.unhx(d["right"]), "rep": [fw.unhx(x) for x in d["rep"].split(",") if x],
+            "end": [fw.unhx(x) for x in d["end"].split(",") if x], "nbds": int(d["nbds"]),
+            "bds": [parse_model_descr("OK " + b) for b in d["bds"].split(";")] if d["bds"] else [],
+            "family": None if dist is None else dist[0], "dist_text": None if dist is None else dist[1], "generable": d["gen"] == "T"}
+
+
+FAMILY = {"FlorySchulz": "flory_schulz", "Gauss": "gauss", "Uniform": "uniform", "SchulzZimm": "schulz_zimm", "LogNormal": "log_normal", "Poisson": "poisson"}
+
+
+def impl_stoch(text):
+    """Stochastic(text, 0); an exception raised INSIDE a distribution constructor after the family was chosen (parameter parsing: not
+    modelled) is reported as ('DISTPARAM', class)"""
+    import traceback
+
+    from gbigsmiles.stochastic import Stochastic
+
+    try:
+        with fw.time_limit(10):
+            s = Stochastic(text, 0)
+    except Exception as e:  # noqa
+        frames = [(os.path.basename(f.filename), f.name) for f in traceback.extract_tb(e.__traceback__)]
+        if any(fn == "distribution.py" and name == "__init__" for fn, name in frames) and not ("does not start with" in str(e)):
+            return ("DISTPARAM", fw.exc_class(e))
+        return ("ERR", fw.exc_class(e))
+    return {"left": s.left_terminal.generate_string(True), "right": s.right_terminal.generate_string(True),
+            "rep": [t.generate_string(True) for t in s.repeat_tokens], "end": [t.generate_string(True) for t in s.end_tokens],
+            "nbds": len(s.bond_descriptors), "bds": [impl_descr_obj(b) for b in s.bond_descriptors],
+            "family": None if s.distribution is None else FAMILY.get(type(s.distribution).__name__, type(s.distribution).__name__),
+            "generable": bool(s.generable), "str_ext": s.generate_string(True), "str_noext": s.generate_string(False)}
+
+
+def stoch_diff(m, i):
+    if isinstance(i, tuple) and i[0] == "DISTPARAM":
+        return []      # the distribution's parameters could not be parsed (ast.literal_eval / float): outside the model
+    if isinstance(m, tuple) or isinstance(i, tuple):
+        if isinstance(m, tuple) and isinstance(i, tuple):
+            return [] if (m[0] == i[0] == "ERR" and m[1] == i[1]) else [f"error class (model {m[1]}, implementation {i[1]})"]
+        return [f"error vs object (model {'error ' + m[1] if isinstance(m, tuple) else 'object'}, implementation {'error ' + i[1] if isinstance(i, tuple) else 'object'})"]
+    d = [k for k in ("left", "right", "rep", "end", "nbds", "family", "generable") if m[k] != i[k]]
+    if len(m["bds"]) == len(i["bds"]):
         for n, (a, b) in enumerate(zip(m["bds"], i["bds"])):
             dd = descr_diff(a, b)
             if dd:
